@@ -136,6 +136,9 @@ def build(cls, sn, fn):
     k = 3
     if cls in ("EOF", "EOFstd", "EOFRotator", "EOFBootstrapper"):
         return "single", lambda: S.EOF(n_modes=k, standardize=(cls == "EOFstd"), solver="full", **nm)
+    if cls == "EOFstd":
+        # variables in very different physical units: standardisation must not depend on what shares a container
+        X = X * xr.DataArray([1e4, 1.0, 1.0, 1e-5], dims="x", coords=dict(x=X.x))
     if cls == "ComplexEOF":
         return "single", lambda: S.ComplexEOF(n_modes=k, solver="full", **nm)
     if cls == "HilbertEOF":
@@ -208,6 +211,9 @@ def evaluate(i, scn):
     sn, fn = {"default": ("sample", "feature"), "sf": ("s", "f"), "xy": ("smp_dim", "ftr_dim")}[c["names"]]
     X, Y = base_data(common.seed())
     flat.labels = {d: X[d].values for d in X.dims}
+    if cls == "EOFstd":
+        # variables in very different physical units: standardisation must not depend on what shares a container
+        X = X * xr.DataArray([1e4, 1.0, 1.0, 1e-5], dims="x", coords=dict(x=X.x))
     if cls == "ComplexEOF":
         X = X + 1j * X.roll(time=3, roll_coords=False)
     rng = np.random.default_rng(i)
